@@ -66,6 +66,19 @@ def compare_text(ctx, text, tag, expected=None, oracle=None):
             rep.violate("parser-fails-on-grammar-line(with valid_addr_range)", dict(case, config=cfg), {"addr_mnemonic": exp2},
                         {"outcome": s2}, model_agrees_with_spec=(m2[0] == "ok"))
         rep.dist["with-valid_addr_range"] += 1
+    if expected is not None and s[0] == "ok" and ctx.g.chance(0.15):
+        # the same listing stored with \r\n line ends: still one record per instruction line, same mnemonics
+        crlf = text.replace("\n", "\r\n")
+        s3 = impl.stream_of(ctx.scratch, crlf)
+        m3 = model.outcome(ctx.driver.call({"op": "stream", "text": crlf}))
+        rep.dist["with-crlf-line-ends"] += 1
+        if m3[0] != "unsup" and (s3[0] != m3[0] or (s3[0] == "ok" and s3[1] != m3[1])):
+            rep.disagree("T3-stream(crlf)", dict(case, line_ends="crlf"), s3 if s3[0] != "ok" else s3[1][:400], m3 if m3[0] != "ok" else m3[1][:400])
+        dec3 = gen.decode_stream(s3[1]) if s3[0] == "ok" else None
+        exp3 = [(a, mn) for a, mn, _ in expected]
+        if s3[0] != "ok" or dec3 is None or [(a, mn) for a, mn, _ in dec3] != exp3:
+            rep.violate("one-instruction-per-instruction-line(crlf line ends)", dict(case, line_ends="crlf"), {"addr_mnemonic": exp3},
+                        {"outcome": s3 if s3[0] != "ok" else s3[1][:600]}, model_agrees_with_spec=None)
     if oracle is not None and s[0] != "ok":
         rep.violate("parser-fails-on-objdump-line", case, {"addr_mnemonic": oracle[:50]}, {"outcome": s},
                     model_agrees_with_spec=(m[0] == "ok"))
